@@ -47,20 +47,20 @@ Arity ==
      CASE n \in {"GET", "GETDEL", "STRLEN", "INCR", "DECR", "LLEN", "SCARD", "SMEMBERS", "HGETALL", "HKEYS", "HVALS", "HLEN",
                  "TYPE", "KEYS", "PERSIST", "TTL", "PTTL", "EXPIRETIME", "PEXPIRETIME", "SELECT", "ECHO"} -> 2
        [] n \in {"SETNX", "GETSET", "APPEND", "INCRBY", "DECRBY", "INCRBYFLOAT", "LINDEX", "RPOPLPUSH", "SISMEMBER", "HGET",
-                 "HEXISTS", "HSTRLEN", "RENAME", "RENAMENX"} -> 3
+                 "HEXISTS", "HSTRLEN", "RENAME", "RENAMENX", "GETBIT"} -> 3
        [] n \in {"SETEX", "PSETEX", "GETRANGE", "SUBSTR", "SETRANGE", "LRANGE", "LSET", "LREM", "LTRIM", "SMOVE", "HSETNX",
-                 "HINCRBY", "HINCRBYFLOAT", "BRPOPLPUSH"} -> 4
+                 "HINCRBY", "HINCRBYFLOAT", "BRPOPLPUSH", "SETBIT"} -> 4
        [] n \in {"LINSERT", "LMOVE"} -> 5
        [] n = "BLMOVE" -> 6
        [] n \in {"RANDOMKEY", "DBSIZE", "MULTI", "EXEC", "DISCARD", "UNWATCH"} -> 1
        [] n \in {"FLUSHDB", "FLUSHALL", "PING", "HELLO", "QUIT"} -> -1
        [] n = "CLIENT" -> -2
        [] n \in {"GETEX", "MGET", "LPOP", "RPOP", "SRANDMEMBER", "SINTER", "SUNION", "SDIFF", "HRANDFIELD", "DEL", "UNLINK",
-                 "EXISTS", "TOUCH", "SORT", "WATCH"} -> -2
+                 "EXISTS", "TOUCH", "SORT", "WATCH", "BITCOUNT", "BITFIELD", "BITFIELD_RO"} -> -2
        [] n \in {"SET", "MSET", "MSETNX", "LCS", "LPUSH", "RPUSH", "LPUSHX", "RPUSHX", "LPOS", "SADD", "SREM", "SMISMEMBER",
                  "SINTERSTORE", "SUNIONSTORE", "SDIFFSTORE", "SINTERCARD", "HMGET", "HDEL", "COPY", "EXPIRE", "PEXPIRE",
-                 "EXPIREAT", "PEXPIREAT", "BLPOP", "BRPOP"} -> -3
-       [] n \in {"LMPOP", "HSET", "HMSET"} -> -4
+                 "EXPIREAT", "PEXPIREAT", "BLPOP", "BRPOP", "BITPOS"} -> -3
+       [] n \in {"LMPOP", "HSET", "HMSET", "BITOP"} -> -4
        [] n = "BLMPOP" -> -5
        [] OTHER -> -1]
 ArityOk(cmd) ==
